@@ -123,27 +123,24 @@ impl PageCache {
             return Ok(None);
         };
 
-        let mut found_victim = None;
-        // Attempt to iterate over all the frames.
-        while self.cursor <= self.frames.len() && found_victim.is_none() {
-            if let Some((pid, frame)) = self.frames.get_index(self.cursor) {
-                if frame.is_free() {
-                    self.stats.eviction();
-
-                    let (_, victim) = self.frames.swap_remove_index(self.cursor).unwrap();
-
-                    found_victim = Some(victim);
-                    break;
-                }
-            };
-
-            // Not evictable.
-            self.cursor += 1;
+        // Clock sweep: look at every frame once, starting where the last sweep stopped and
+        // wrapping around (the cursor used to run off the end and never come back, so a cache
+        // whose frames were all pinned once reported out-of-memory forever after).
+        let len = self.frames.len();
+        for step in 0..len {
+            let idx = (self.cursor + step) % len;
+            let is_free = self
+                .frames
+                .get_index(idx)
+                .map(|(_, frame)| frame.is_free())
+                .unwrap_or(false);
+            if is_free {
+                self.stats.eviction();
+                let (_, victim) = self.frames.swap_remove_index(idx).unwrap();
+                self.cursor = if self.frames.is_empty() { 0 } else { idx % self.frames.len() };
+                return Ok(Some(victim));
+            }
         }
-
-        if found_victim.is_some() {
-            return Ok(found_victim);
-        };
 
         Err(IoError::new(
             ErrorKind::OutOfMemory,
